@@ -2,6 +2,8 @@ package main
 
 import (
 	"fmt"
+	"go/ast"
+	"go/token"
 	"go/types"
 	"sort"
 
@@ -127,4 +129,94 @@ func interpolateCoverRule(r *Report, p *Prog, rule string, recvTypes ...string) 
 		}
 	}
 	return n
+}
+
+// allCriteriaRule (C15.f ALL-CRITERIA): a profile is active only when ALL the
+// criteria it names are met (Maven >= 3.2.2). Profile.activated keeps a result
+// variable that each met criterion sets to true and leaves with `return false`
+// as soon as one is not met. A criterion that instead STORES its (possibly
+// false) outcome in the variable is overruled by the `= true` of the next
+// criterion that is met. Decided: no assignment of the constant true to the
+// returned result variable follows (in source order; the function has no
+// loops) an assignment of a non-constant value that does not itself include
+// the variable.
+func allCriteriaRule(r *Report, p *Prog, rule string) {
+	f := p.lookupFn("(*maven.Profile).activated")
+	key := "(*maven.Profile).activated: a criterion that is not met cannot be overruled"
+	if f == nil {
+		r.bad(rule, key, "", "function not found: anchor lost")
+		return
+	}
+	fd, ok := f.Syntax().(*ast.FuncDecl)
+	pk := p.pkg("maven")
+	if !ok || fd.Body == nil || pk == nil {
+		r.bad(rule, key, p.pos(f.Pos()), "no syntax for activated: anchor lost")
+		return
+	}
+	// the result variable: the identifier returned in the last return statement
+	var resObj types.Object
+	if last, ok := fd.Body.List[len(fd.Body.List)-1].(*ast.ReturnStmt); ok && len(last.Results) > 0 {
+		if id, ok := last.Results[0].(*ast.Ident); ok {
+			resObj = pk.TypesInfo.Uses[id]
+		}
+	}
+	if resObj == nil {
+		r.bad(rule, key, p.pos(f.Pos()), "the function does not end in `return <variable>, ...`: anchor lost")
+		return
+	}
+	type asg struct {
+		pos      token.Pos
+		constant bool
+		monotone bool
+	}
+	var asgs []asg
+	hasLoop := false
+	ast.Inspect(fd.Body, func(n ast.Node) bool {
+		switch x := n.(type) {
+		case *ast.FuncLit:
+			return false
+		case *ast.ForStmt, *ast.RangeStmt:
+			hasLoop = true
+		case *ast.AssignStmt:
+			for i, l := range x.Lhs {
+				id, ok := l.(*ast.Ident)
+				if !ok || (pk.TypesInfo.Uses[id] != resObj && pk.TypesInfo.Defs[id] != resObj) || i >= len(x.Rhs) {
+					continue
+				}
+				a := asg{pos: x.Pos()}
+				if tv, ok := pk.TypesInfo.Types[x.Rhs[i]]; ok && tv.Value != nil {
+					a.constant = true
+				} else {
+					ast.Inspect(x.Rhs[i], func(m ast.Node) bool {
+						if rid, ok := m.(*ast.Ident); ok && pk.TypesInfo.Uses[rid] == resObj {
+							a.monotone = true
+						}
+						return true
+					})
+				}
+				asgs = append(asgs, a)
+			}
+		}
+		return true
+	})
+	if hasLoop {
+		r.bad(rule, key, p.pos(f.Pos()), "activated now contains a loop: source order no longer orders the assignments (anchor lost)")
+		return
+	}
+	var bad token.Pos
+	for i, a := range asgs {
+		if a.constant || a.monotone {
+			continue
+		}
+		for _, b := range asgs[i+1:] {
+			if b.constant {
+				bad = a.pos
+			}
+		}
+	}
+	if bad.IsValid() {
+		r.bad(rule, key, p.pos(bad), "the outcome of a criterion is stored in the result variable instead of leaving with `return false`, and a later criterion sets the variable to true when it is met: a profile whose first criterion fails and whose second is met is activated, although all criteria have to hold")
+	} else {
+		r.ok(rule, key, p.pos(f.Pos()), fmt.Sprintf("%d assignments to the result variable; no computed outcome is followed by a constant true", len(asgs)))
+	}
 }
